@@ -102,6 +102,8 @@ FILES = [
     "local t = {\n  1, -- one\n  2,\n}\n\n\nreturn t\n-- bye\n",
     "print(1)\n-- bye\n",
     "local a = 1;\n",
+    "return 1;\n",
+    "do return 1 -- c\n ; end\n",
 ]
 
 EXCEPTS = [
@@ -120,9 +122,7 @@ KEY_SOURCE_CR = "remove-comments-source-cr:--_a\\rprint(2)"
 KEY_CRLF = "remove-comments-crlf-anchor:--_keep\\r\\n"
 KEY_RAW = "remove-spaces-ellipsis-after-line-comment:(--c\\n...number)"
 KEY_END_SEMI = "append-end-before-semicolon:local_a=1;"
-KEY_MISCLASSIFIED = "append-text-misclassified-line-comment:[a["
 KEY_DOTNUM = "trailing-dot-number-fused:5.--[[c]]end"
-KEY_MISCLASSIFIED_SRC = "remove-spaces-misclassified-line-comment:--[a[_odd"
 KEY_MINUS = "remove-spaces-minus-before-comment:a_-_--_c"
 
 
@@ -134,30 +134,9 @@ def known_class(text):
         return KEY_OPENER
     if "\r" in text:
         return KEY_CR
-    if text.startswith("[") and generator_says_long("--" + text):
-        return KEY_MISCLASSIFIED
+    # (texts like `[a[` used to be a recorded class: the generator took `--[a[` for a long comment; repaired by
+    # /repo fc507f0, the regression inputs stay in FIXED_TEXTS / FILES and are reported unkeyed if it returns)
     return None
-
-
-def generator_says_long(content):
-    """darklua's is_single_line_comment says "not a line comment" (python transcription, used only to
-    name the class; the Coq model of the same function is tied to the code in stream A)"""
-    if not content.startswith("--["):
-        return False
-    k = content[3:].find("[")
-    if k < 0:
-        return False
-    if k < 3:
-        return True
-    b = content.encode("utf-8")
-    if k > len(b):
-        return True
-    try:
-        sub = b[3:k].decode("utf-8")
-        b[k:].decode("utf-8")
-    except UnicodeDecodeError:
-        return True
-    return all(ch == "=" for ch in sub)
 
 
 def nontrivial_text(t):
@@ -387,17 +366,6 @@ def dot_number_before_word(src):
     return False
 
 
-def misclassified_comment_in_source(src):
-    """a line comment (reference lexer) that darklua's generator takes for a long comment"""
-    data = src.encode("utf-8")
-    try:
-        _, comments = L.lex(data)
-    except L.LexError:
-        return False
-    return any(L.long_bracket_level(c.text, 2) is None and generator_says_long(c.text.decode("utf-8", "replace"))
-               for c in comments if c.kind == "comment")
-
-
 def joined(comments):
     return b"".join(comments)
 
@@ -587,8 +555,6 @@ def run(ctx):
                     key = KEY_MINUS
                 if key is None and kind == "append+spaces" and dot_number_before_word(src):
                     key = KEY_DOTNUM
-                if key is None and kind == "append+spaces" and misclassified_comment_in_source(src):
-                    key = KEY_MISCLASSIFIED_SRC
                 if key is None and loc == "end" and "moved code b';'" in problem:
                     key = KEY_END_SEMI
             elif kind == "append" and loc == "end" and text:
@@ -624,8 +590,6 @@ def run(ctx):
                 key = KEY_MINUS
             elif problem is not None and kind != "remove_comments" and ellipsis_after_line_comment(src):
                 key = KEY_RAW
-            elif problem is not None and kind != "remove_comments" and key is None and misclassified_comment_in_source(src):
-                key = KEY_MISCLASSIFIED_SRC
             samples.setdefault(kind, {"except": meta["except"], "source": src[:60], "output": out[:80]})
         elif kind == "remove_spaces":
             if has_comment:
@@ -639,8 +603,6 @@ def run(ctx):
                 key = KEY_RAW
             elif problem is not None and dot_number_before_word(src):
                 key = KEY_DOTNUM
-            elif problem is not None and misclassified_comment_in_source(src):
-                key = KEY_MISCLASSIFIED_SRC
         elif kind.startswith("generator:"):
             gname = kind.split(":")[1]
             base = base_out.get((gname, src))
